@@ -7,10 +7,14 @@ ASSUMPTIONS = [
     'exception model (DESIGN.md 2.5): an exception is an opaque token; every handler matches (the code under test only uses '
     'catch (...)); std::exception_ptr holds the token; std::current_exception / std::rethrow_exception move tokens',
     'wait()/tryWait()/schedule callers are serial (documented contract)',
+    'instances *_nest: a task that runs nested inside another body stands for a task executed by another pool thread during that body: it '
+    'sees an empty thread-local task-set stack (saved/restored by the harness); the packaged-task wrapper reads no other thread-local state',
 ]
-OUTSIDE = ('task-granularity interleaving only: two bodies throwing concurrently (the kSetting window of trySetCurrentException), '
-           'a body throwing while wait() is between its counter load and testAndResetException are outside; exception types, '
-           'RTTI matching and nested handlers are outside (tokens); the destructor reached with an undelivered exception '
+OUTSIDE = ('interleaving at task granularity: bodies run one after another, or (instances *_nest) overlap by LIFO nesting at one scheduling '
+           'point per body (a second task runs start to end inside the first, depth 1, 2 tasks); switches between the atomic operations '
+           'inside trySetCurrentException / testAndResetException (a second thrower arriving while the guard is kSetting, wait() reading '
+           'the guard during that window), a body throwing while wait() is between its counter load and testAndResetException are outside; '
+           'exception types, RTTI matching and nested handlers are outside (tokens); the destructor reached with an undelivered exception '
            '(wait() throws inside a noexcept destructor -> std::terminate) is not part of the property and is excluded by a final wait(); '
            'more than 2 tasks; futures')
 
@@ -61,6 +65,7 @@ INSTANCES = [
     exc(1, 2, cost=1, mask=2, nest=1, ctx=0, tiers=_Q),
     exc(0, 1, mask=2, nest=1, ctx=0),
     exc(1, 1, cost=1, mask=3, nest=1),
+    # exc(0,1,mask=2,nest=1,ctx=0) and exc(1,1,mask=3,nest=1): thorough, validated on /repo (112 s / 91 s wall)
     # thorough tier (defined, not run in this round): other set kind / pool sizes / bulk shapes / two completion calls
     exc(0, 1, mask=3), exc(1, 1, cost=0, mask=3), exc(1, 2, cost=1, mask=12), exc(0, 2, mask=12), exc(1, 2, cost=0, mask=12),
     exc(0, 0, mask=15), exc(1, 0, cost=1, mask=15), exc(1, 1, cost=1, mask=3, nwait=2), exc(0, 1, mask=15, nwait=2),
